@@ -162,6 +162,8 @@ type Runner struct {
 	ReloadEachAttempt bool // ScanCancel: ROLLBACK before every attempt
 	// SessionObjs: a variable, a function, an open cursor and the failing-body functions vfa…vfd were declared in the block
 	// that runs the statements; a failed statement must leave them all in place
+	// NumRefs: probability (1/100) that a column is addressed by number (t.N) instead of by name
+	NumRefs        int
 	SessionObjs    bool
 	sessTag        string
 	pendingCreated []string // tables CREATEd since the last COMMIT / ROLLBACK (their files exist, locked, uncommitted)
@@ -525,19 +527,43 @@ type cref struct {
 	tbl, name string
 	kind      int
 	q         bool
+	num       int
 }
 
 func (r *Runner) crefs(tabs []*Tab, q bool) []cref {
 	var out []cref
 	for _, t := range tabs {
-		for _, c := range t.Cols {
-			out = append(out, cref{t.Name, c, t.Kind[c], q})
+		for i, c := range t.Cols {
+			n := 0
+			if r.NumRefs > 0 && r.G.Intn(100) < r.NumRefs {
+				n = i + 1
+			}
+			out = append(out, cref{tbl: t.Name, name: c, kind: t.Kind[c], q: q, num: n})
 		}
 	}
 	return out
 }
 
-func (c cref) ex() Ex { return Col(c.tbl, c.name, c.q) }
+// (num > 0: the column is addressed by its NUMBER, `table.N`; the model token stays the name the column has at that position)
+func (c cref) ex() Ex {
+	e := Col(c.tbl, c.name, c.q)
+	if c.num > 0 {
+		e.SQL = fmt.Sprintf("%s.%d", c.tbl, c.num)
+	}
+	return e
+}
+
+// nref: the column `c` of t for program text — by name, or (a quarter of the time) by its number `t.N`
+func (r *Runner) nref(t *Tab, c string) string {
+	if r.NumRefs > 0 && r.G.Intn(100) < r.NumRefs {
+		for i, x := range t.Cols {
+			if x == c {
+				return fmt.Sprintf("%s.%d", t.Name, i+1)
+			}
+		}
+	}
+	return c
+}
 
 func (r *Runner) atom(cs []cref) Ex {
 	g := r.G
@@ -1059,7 +1085,7 @@ func (r *Runner) genUpdate(t *Tab, f *Fault) *Stmt {
 	}
 	var ss, st []string
 	for k := range setCols {
-		ss = append(ss, setCols[k]+" = "+setEx[k].SQL)
+		ss = append(ss, r.nref(t, setCols[k])+" = "+setEx[k].SQL)
 		st = append(st, setCols[k]+" "+setEx[k].Tok)
 	}
 	s := &Stmt{Kind: "update", Targets: []string{t.Name}, Fault: f}
@@ -1311,10 +1337,10 @@ func (r *Runner) genAddCol(t *Tab, f *Fault) *Stmt {
 		posSQL = " LAST"
 	case 2:
 		k := g.Intn(len(t.Cols))
-		posSQL, posTok, posIdx = " BEFORE "+t.Cols[k], "before:"+t.Cols[k], k
+		posSQL, posTok, posIdx = " BEFORE "+r.nref(t, t.Cols[k]), "before:"+t.Cols[k], k
 	case 3:
 		k := g.Intn(len(t.Cols))
-		posSQL, posTok, posIdx = " AFTER "+t.Cols[k], "after:"+t.Cols[k], k+1
+		posSQL, posTok, posIdx = " AFTER "+r.nref(t, t.Cols[k]), "after:"+t.Cols[k], k+1
 	}
 	switch fk(f) {
 	case "div":
@@ -1388,7 +1414,11 @@ func (r *Runner) genDropCol(t *Tab, f *Fault) *Stmt {
 		cols = append(cols, "zz")
 	}
 	s := &Stmt{Kind: "dropcol", Targets: []string{t.Name}, Fault: f}
-	s.SQL = fmt.Sprintf("ALTER TABLE %s DROP (%s)", t.Name, strings.Join(cols, ", "))
+	colsSQL := make([]string, len(cols))
+	for i, c := range cols {
+		colsSQL[i] = r.nref(t, c)
+	}
+	s.SQL = fmt.Sprintf("ALTER TABLE %s DROP (%s)", t.Name, strings.Join(colsSQL, ", "))
 	s.Op = fmt.Sprintf("dropcol %s %d %s", t.Name, len(cols), strings.Join(cols, " "))
 	if f != nil {
 		return s
@@ -1444,7 +1474,7 @@ func (r *Runner) genRename(t *Tab, f *Fault) *Stmt {
 		old = "zz"
 	}
 	s := &Stmt{Kind: "rename", Targets: []string{t.Name}, Fault: f}
-	s.SQL = fmt.Sprintf("ALTER TABLE %s RENAME %s TO %s", t.Name, old, nw)
+	s.SQL = fmt.Sprintf("ALTER TABLE %s RENAME %s TO %s", t.Name, r.nref(t, old), nw)
 	s.Op = fmt.Sprintf("rename %s %s %s", t.Name, old, nw)
 	if f != nil {
 		return s
@@ -1475,7 +1505,7 @@ func (r *Runner) genRename(t *Tab, f *Fault) *Stmt {
 }
 
 // FnBodies: the functions of SessionSetup
-var FnBodies = []string{"vfa", "vfb", "vfc", "vfd"}
+var FnBodies = []string{"vfa", "vfb", "vfc", "vfd", "vfs"}
 
 // genFnFail: a data-changing statement one of whose expressions (VALUES, SET, WHERE, DEFAULT) calls a user-defined
 // function whose body fails: the statements nested in the function (CREATE TABLE, DML, DECLARE) must leave nothing behind —
@@ -1488,11 +1518,18 @@ func (r *Runner) genFnFail(t *Tab) *Stmt {
 	fn := FnBodies[g.Intn(len(FnBodies))]
 	dc := t.dataCols()
 	s := &Stmt{Kind: "fnfail", Targets: []string{t.Name}, Fault: &Fault{Kind: fn}, Wrap: "plain"}
-	pos := g.Intn(5)
+	pos := g.Intn(8)
 	if len(dc) == 0 || (pos == 3 && len(r.snap(t.Name).Rows) == 0) {
 		pos = 0 // (a DEFAULT is not evaluated for a table without records: the ALTER would succeed)
 	}
 	switch pos {
+	case 5:
+		// the value expression of ALTER TABLE … SET: evaluated under the operation lock, so the function's statements are refused
+		s.SQL = fmt.Sprintf("ALTER TABLE %s SET %s TO %s(1)", t.Name, g.Pick("FORMAT", "ENCODING", "HEADER", "NOPE", "DELIMITER", "LINE_BREAK"), fn)
+	case 6:
+		s.SQL = fmt.Sprintf("INSERT INTO %s (id) SELECT id FROM %s LIMIT %s(1)", t.Name, t.Name, fn)
+	case 7:
+		s.SQL = fmt.Sprintf("REPLACE INTO %s (id) USING (id) SELECT id FROM %s LIMIT 1 OFFSET %s(1)", t.Name, t.Name, fn)
 	case 0:
 		s.SQL = fmt.Sprintf("INSERT INTO %s (id) VALUES (%s(%d))", t.Name, fn, t.NextID+7)
 	case 1:
@@ -1557,6 +1594,32 @@ func (r *Runner) genClauseFail(t, src *Tab) *Stmt {
 			s.SQL = fmt.Sprintf("%sINSERT INTO %s (id) %s", with, t.Name, sel)
 			s.Targets = []string{t.Name}
 		}
+	}
+	return s
+}
+
+// genTargetFail: a multi-target DELETE / UPDATE whose later (or earlier) target cannot be changed — the alias of a
+// sub-query, an inline table, a name that is not in the FROM clause — while the other target is valid and matched.
+func (r *Runner) genTargetFail(t, o *Tab) *Stmt {
+	g := r.G
+	dc := t.dataCols()
+	s := &Stmt{Kind: "targetfail", Targets: []string{t.Name}, Fault: &Fault{Kind: "later_target_invalid"}, Wrap: "plain"}
+	a := t.Name
+	switch k := g.Intn(6); {
+	case k == 0:
+		s.SQL = fmt.Sprintf("DELETE %[1]s, sq FROM %[1]s, (SELECT id FROM %[2]s) sq WHERE %[1]s.id = sq.id", a, o.Name)
+	case k == 1:
+		s.SQL = fmt.Sprintf("DELETE sq, %[1]s FROM %[1]s, (SELECT id FROM %[2]s) sq WHERE %[1]s.id = sq.id", a, o.Name)
+	case k == 2:
+		s.SQL = fmt.Sprintf("DELETE %[1]s, nosuch FROM %[1]s, %[2]s WHERE %[1]s.id = %[2]s.id", a, o.Name)
+	case k == 3:
+		s.SQL = fmt.Sprintf("WITH it AS (SELECT id FROM %[2]s) DELETE %[1]s, it FROM %[1]s, it WHERE %[1]s.id = it.id", a, o.Name)
+	case len(dc) == 0:
+		s.SQL = fmt.Sprintf("DELETE %[1]s, nosuch FROM %[1]s, %[2]s WHERE TRUE", a, o.Name)
+	case k == 4:
+		s.SQL = fmt.Sprintf("UPDATE %[1]s, sq SET %[1]s.%[3]s = 1 FROM %[1]s, (SELECT id FROM %[2]s) sq WHERE %[1]s.id = sq.id", a, o.Name, dc[0])
+	default:
+		s.SQL = fmt.Sprintf("UPDATE %[1]s, nosuch SET %[1]s.%[3]s = 1 FROM %[1]s, %[2]s WHERE %[1]s.id = %[2]s.id", a, o.Name, dc[0])
 	}
 	return s
 }
@@ -1655,7 +1718,7 @@ func (r *Runner) genCreate(t *Tab, f *Fault) *Stmt {
 func (r *Runner) Gen(fault bool) *Stmt {
 	g := r.G
 	kinds := []string{"insert", "insert", "insert", "insertsel", "insertsel", "replacesel", "replace", "replace", "replace", "update", "update", "update",
-		"delete", "delete", "updatem", "updatem", "deletem", "addcol", "addcol", "dropcol", "rename", "create", "setattr", "fnfail", "fnfail", "clausefail", "clausefail"}
+		"delete", "delete", "updatem", "updatem", "deletem", "addcol", "addcol", "dropcol", "rename", "create", "setattr", "fnfail", "fnfail", "clausefail", "clausefail", "targetfail"}
 	for tries := 0; tries < 80; tries++ {
 		t := r.Tabs[g.Intn(len(r.Tabs))]
 		var o *Tab
@@ -1741,6 +1804,11 @@ func (r *Runner) Gen(fault bool) *Stmt {
 				continue
 			}
 			s = r.genClauseFail(t, o)
+		case "targetfail":
+			if f == nil || o == nil {
+				continue
+			}
+			s = r.genTargetFail(t, o)
 		case "create":
 			if f == nil && g.Intn(3) > 0 {
 				continue
@@ -1771,6 +1839,7 @@ var FaultsOf = map[string][]string{
 	"setattr":    {"value", "value", "combo", "name"},
 	"fnfail":     {"fn"},
 	"clausefail": {"clause"},
+	"targetfail": {"target"},
 }
 
 // ---------- running ----------
@@ -2126,7 +2195,8 @@ func (r *Runner) Commit() { r.CommitAt(0) }
 // SessionSetup declares, on the main and the control processor, the session objects whose survival is checked after
 // failed statements, and the functions whose bodies fail when they are called from inside a data-changing statement:
 // vfa: CREATE TABLE with a duplicate column; vfb: a data-changing statement (refused while another one is running);
-// vfc: CREATE TABLE … AS SELECT from a table that does not exist; vfd: DECLARE VIEW + INSERT, then a division by zero.
+// vfc: CREATE TABLE … AS SELECT from a table that does not exist; vfd: DECLARE VIEW + INSERT, then a division by zero;
+// vfs: INSERT into a table, then the return of a value that no table attribute accepts.
 func (r *Runner) SessionSetup(tag string) {
 	r.sessTag = tag
 	first := r.Tabs[0].Name
@@ -2135,7 +2205,9 @@ func (r *Runner) SessionSetup(tag string) {
 		"DECLARE vfa FUNCTION (@n) AS BEGIN CREATE TABLE `tq" + tag + "a.csv` (a, b, a); RETURN @n; END; " +
 		"DECLARE vfb FUNCTION (@n) AS BEGIN INSERT INTO " + first + " (id) VALUES (999999); RETURN @n; END; " +
 		"DECLARE vfc FUNCTION (@n) AS BEGIN CREATE TABLE `tq" + tag + "c.csv` (a, b) AS SELECT 1, 2 FROM nosuch_zz; RETURN @n; END; " +
-		"DECLARE vfd FUNCTION (@n) AS BEGIN DECLARE vzz VIEW (x); INSERT INTO vzz VALUES (1); RETURN @n / 0; END;"
+		"DECLARE vfd FUNCTION (@n) AS BEGIN DECLARE vzz VIEW (x); INSERT INTO vzz VALUES (1); RETURN @n / 0; END; " +
+		// vfs: a side effect on a table, then a value no attribute accepts — refused inside a data-changing statement
+		"DECLARE vfs FUNCTION (@n) AS BEGIN INSERT INTO " + first + " (id) VALUES (888888); RETURN 'SPREADSHEET'; END;"
 	for _, pr := range []*hc.Proc{r.Pr, r.Twin} {
 		if pr == nil {
 			continue
@@ -3259,6 +3331,11 @@ func NestedFailCorpus(g *hc.Gen, o *hc.Out, root string) {
 				fmt.Sprintf("ALTER TABLE %s ADD (nx DEFAULT %s(id))", t, fn),
 				fmt.Sprintf("REPLACE INTO %s (id, %s) USING (id) VALUES (%s(0), 1), (8, 2)", t, c, fn),
 				fmt.Sprintf("INSERT INTO %s (id, %s) SELECT id + 20, %s(e) FROM f2", t, c, fn),
+				fmt.Sprintf("ALTER TABLE %s SET FORMAT TO %s(1)", t, fn),
+				fmt.Sprintf("ALTER TABLE %s SET HEADER TO %s(1)", t, fn),
+				fmt.Sprintf("ALTER TABLE %s SET NOPE TO %s(1)", t, fn),
+				fmt.Sprintf("INSERT INTO %s (id) SELECT id FROM f2 LIMIT %s(1)", t, fn),
+				fmt.Sprintf("INSERT INTO %s (id) SELECT id FROM f2 LIMIT 1 OFFSET %s(1)", t, fn),
 			} {
 				if !run(law("fnfail", fn, sql, t)) {
 					return
@@ -3293,6 +3370,20 @@ func NestedFailCorpus(g *hc.Gen, o *hc.Out, root string) {
 				}
 			}
 		}
+		// multi-target statements whose LATER target is invalid while the earlier one is valid and matched (and the reverse)
+		for _, sql := range []string{
+			fmt.Sprintf("DELETE %[1]s, sq FROM %[1]s, (SELECT id FROM f2) sq WHERE %[1]s.id = sq.id", t),
+			fmt.Sprintf("DELETE sq, %[1]s FROM %[1]s, (SELECT id FROM f2) sq WHERE %[1]s.id = sq.id", t),
+			fmt.Sprintf("DELETE %[1]s, nosuch FROM %[1]s, f2 WHERE %[1]s.id = f2.id", t),
+			fmt.Sprintf("WITH it AS (SELECT id FROM f2) DELETE %[1]s, it FROM %[1]s, it WHERE %[1]s.id = it.id", t),
+			fmt.Sprintf("UPDATE %[1]s, sq SET %[1]s.%[2]s = 1 FROM %[1]s, (SELECT id FROM f2) sq WHERE %[1]s.id = sq.id", t, c),
+			fmt.Sprintf("UPDATE %[1]s, nosuch SET %[1]s.%[2]s = 1 FROM %[1]s, f2 WHERE %[1]s.id = f2.id", t, c),
+			fmt.Sprintf("UPDATE %[1]s, sq SET %[1]s.%[2]s = 1, sq.id = 2 FROM %[1]s, (SELECT id FROM f2) sq WHERE %[1]s.id = sq.id", t, c),
+		} {
+			if !run(law("targetfail", "later_target_invalid", sql, t)) {
+				return
+			}
+		}
 		r.CompareTwin("nested-failure corpus: " + t)
 	}
 	// the transaction is still usable: ordinary statements, then COMMIT compared with the control run
@@ -3308,5 +3399,50 @@ func NestedFailCorpus(g *hc.Gen, o *hc.Out, root string) {
 		}
 	}
 	r.CompareTwin("nested-failure corpus: before COMMIT")
+	r.Commit()
+}
+
+// NumberRefCorpus (c05, first on every run): columns addressed BY NUMBER (`table.N`) in every statement kind, in the
+// same transaction after DROP / ADD / RENAME of non-last columns — on a file-backed table, a temporary table and STDIN.
+// The model's columns are positions of the current header, so `t.N` is the N-th name.
+func NumberRefCorpus(g *hc.Gen, o *hc.Out, root string) {
+	rows := [][]int{{0, 5, 1, 7}, {1, 6, 0, 8}, {2, 7, 3, 9}, {3, 8, 2, 6}}
+	r := newFixedRunner(g, o, root, "corpus-numref", []fixedTab{
+		{"f1", true, []string{"id", "a", "b", "c"}, rows}, {"m1", false, []string{"id", "a", "b", "c"}, rows},
+		{"stdin", false, []string{"id", "a", "b", "c"}, rows},
+	})
+	r.OnlyFailureLaws = false
+	r.dropTwin()
+	defer r.Close()
+	hs := func(kind, t, sql, op string) *Stmt {
+		return &Stmt{Kind: kind, SQL: sql, Op: op, Targets: []string{t}, Wrap: "plain"}
+	}
+	for _, t := range []string{"f1", "m1", "stdin"} {
+		stmts := []*Stmt{
+			hs("dropcol", t, fmt.Sprintf("ALTER TABLE %s DROP a", t), fmt.Sprintf("dropcol %s 1 a", t)), // id b c
+			hs("update", t, fmt.Sprintf("UPDATE %[1]s SET %[1]s.3 = %[1]s.2 + 1 WHERE %[1]s.1 < 2", t),
+				fmt.Sprintf("update %s 1 c + $b %s lt $id %s", t, Int(1).Tok, Int(2).Tok)),
+			hs("addcol", t, fmt.Sprintf("ALTER TABLE %[1]s ADD (x DEFAULT %[1]s.3 * 2) AFTER %[1]s.2", t),
+				fmt.Sprintf("addcol %s after:b 1 x 1 * $c %s", t, Int(2).Tok)), // id b x c
+			hs("rename", t, fmt.Sprintf("ALTER TABLE %[1]s RENAME %[1]s.3 TO y", t), fmt.Sprintf("rename %s x y", t)), // id b y c
+			hs("dropcol", t, fmt.Sprintf("ALTER TABLE %[1]s DROP %[1]s.2", t), fmt.Sprintf("dropcol %s 1 b", t)),      // id y c
+			hs("update", t, fmt.Sprintf("UPDATE %[1]s SET %[1]s.2 = %[1]s.3 - %[1]s.1 WHERE %[1]s.3 > 7", t),
+				fmt.Sprintf("update %s 1 y - $c $id gt $c %s", t, Int(7).Tok)),
+			hs("addcol", t, fmt.Sprintf("ALTER TABLE %[1]s ADD (z DEFAULT %[1]s.2) BEFORE %[1]s.2", t),
+				fmt.Sprintf("addcol %s before:y 1 z 1 $y", t)), // id z y c
+			hs("delete", t, fmt.Sprintf("DELETE FROM %[1]s WHERE %[1]s.4 = 9", t), fmt.Sprintf("delete %s eq $c %s", t, Int(9).Tok)),
+			hs("dropcol", t, fmt.Sprintf("ALTER TABLE %[1]s DROP (%[1]s.2, y)", t), fmt.Sprintf("dropcol %s 2 z y", t)), // id c
+			hs("update", t, fmt.Sprintf("UPDATE %[1]s SET %[1]s.2 = %[1]s.2 + 100 WHERE TRUE", t),
+				fmt.Sprintf("update %s 1 c + $c %s %s", t, Int(100).Tok, True().Tok)),
+		}
+		for _, st := range stmts {
+			out := r.Exec(st, 0)
+			o.Count("corpus:numref")
+			if out.Err != nil {
+				o.Law("corpus_statement_failed", map[string]string{"sql": st.SQL, "error": out.Err.Error()})
+				return
+			}
+		}
+	}
 	r.Commit()
 }
